@@ -76,7 +76,15 @@ func (session *BasicHttpSubSession) Write(b []byte) {
 			PayloadLength: uint64(len(b)),
 			Masked:        false,
 		}
-		session.write(MakeWsFrameHeader(wsHeader))
+		// The write queue of the connection is bounded and drops what it cannot take, one element at a
+		// time.  Header and payload therefore have to be one element: queued separately, one of them
+		// could be dropped without the other and the peer would lose the frame boundaries for good.
+		h := MakeWsFrameHeader(wsHeader)
+		frame := make([]byte, len(h)+len(b))
+		copy(frame, h)
+		copy(frame[len(h):], b)
+		session.write(frame)
+		return
 	}
 	session.write(b)
 }
